@@ -88,7 +88,9 @@ func loadBuiltins() []builtinSig {
 }
 
 var idPool = []string{"tbl_s", "tbl_i", "acl_a", "rc_a", "pb_a", "F_origin", "sha256", "sha1", "md5", "aes128", "aes256", "cbc", "gcm", "ctr", "nopad", "pkcs7", "base64", "hex", "url", "url_nopad", "default", "crc32", "standard", "nosuch"}
-var strPool = []string{`"000102030405060708090a0b0c0d0e0f"`, `"000102030405060708090a0b0c0d0e0f101112131415161718191a1b1c1d1e1f"`, `"aabbcc"`, `"00"`, `"AAECAwQFBgcICQoLDA0ODw=="`, `""`, `"a"`, `"0"`, `"-1"`, `"abc"`, `"%"`, `"("`, `"[a-"`, `"(?<x>"`, `"\\"`, `"a,b;c=d"`, `"k=v&k2=v2"`, `"2001:db8::1"`, `"192.0.2.1/33"`, `"Thu, 01 Jan 1970 00:00:00 GMT"`, `"9223372036854775808"`, `"1e999"`, `"0x"`, `"AAAA===="`, `"zz"`, `"ÿþ"`, `"ａ"`, `"%00"`, `"%E3%81"`, `req.http.Not-Set`, `req.http.X-Long`, `req.url`, `"Mozilla/5.0 (X11)"`, `"en-US,en;q=0.5,*;q=x"`, `"{\"a\":[1,{\"b\":null}]}"`, `"$1\\9\\0"`}
+var strPool = []string{`"000102030405060708090a0b0c0d0e0f"`, `"000102030405060708090a0b0c0d0e0f101112131415161718191a1b1c1d1e1f"`, `"aabbcc"`, `"00"`, `"AAECAwQFBgcICQoLDA0ODw=="`, `""`, `"a"`, `"0"`, `"-1"`, `"abc"`, `"%"`, `"("`, `"[a-"`, `"(?<x>"`, `"\\"`, `"a,b;c=d"`, `"k=v&k2=v2"`, `"2001:db8::1"`, `"192.0.2.1/33"`, `"Thu, 01 Jan 1970 00:00:00 GMT"`, `"9223372036854775808"`, `"1e999"`, `"0x"`, `"AAAA===="`, `"zz"`, `"ÿþ"`, `"ａ"`, `"%00"`, `"%E3%81"`, `req.http.Not-Set`, `req.http.X-Long`, `req.url`, `"Mozilla/5.0 (X11)"`, `"en-US,en;q=0.5,*;q=x"`, `"{\"a\":[1,{\"b\":null}]}"`, `"$1\\9\\0"`,
+	// raw percent signs at every distance from the end (long strings are not escape-decoded by the parser)
+	`{"%2"}`, `{"a%2"}`, `{"next=%2"}`, `{"sale 50%!"}`, `{"a%"}`, `{"%%"}`, `{"%zz"}`, `{"x%41%4"}`, `{"%E3%81%"}`, `{"%u12"}`, `{"%u{1F600"}`, `{"+%2B+"}`}
 var timePool = []string{"now", "time.add(now, 9999999h)", "time.sub(now, 9999999h)", "std.integer2time(0)", "std.integer2time(-1)", "std.integer2time(253402300800)", "std.time(\"garbage\", now)"}
 var ipPool = []string{"client.ip", "server.ip", "std.ip(\"::\", \"127.0.0.1\")", "std.ip(\"255.255.255.255\", \"::1\")", "std.str2ip(\"bogus\", \"192.0.2.1\")"}
 
